@@ -209,7 +209,63 @@ pub fn judge(hist: usize, keys: &[Key]) -> (Option<(String, String)>, Option<Vie
     }
 }
 
+/// Keys as replayable codes: a character is its code point, an editing key its alphabet index
+/// plus 0x200000 (no character is that large).
+fn key_codes(keys: &[Key]) -> Vec<u64> {
+    keys.iter()
+        .map(|k| match k {
+            Key::Char(c) => *c as u64,
+            other => 0x200000 + ALPHABET.iter().position(|a| a == other).unwrap() as u64,
+        })
+        .collect()
+}
+
+fn keys_of_codes(codes: &[u64]) -> Option<Vec<Key>> {
+    codes.iter().map(|c| if *c >= 0x200000 { ALPHABET.get((*c - 0x200000) as usize).copied() } else { char::from_u32(*c as u32).map(Key::Char) }).collect()
+}
+
+/// The key templates of the character sweep, instantiated for the character `c`: a line that puts
+/// `c` next to a letter, to punctuation, to a space and to itself, then every number of word
+/// motions from either end followed by an insertion; deletions around it; a line of `c` alone
+/// (blank or not); and a submitted line recalled from history and edited.
+pub fn sweep_templates(c: char) -> Vec<Vec<Key>> {
+    let line = [Key::Char('a'), Key::Char(c), Key::Char(';'), Key::Char(c), Key::Char('a'), Key::Char(' '), Key::Char(c), Key::Char(c), Key::Char(';')];
+    let mut v: Vec<Vec<Key>> = Vec::new();
+    for i in 0..=7usize {
+        let mut k = line.to_vec();
+        k.extend(std::iter::repeat(Key::CtrlLeft).take(i));
+        k.extend([Key::Char('x'), Key::Enter]);
+        v.push(k);
+        let mut k = line.to_vec();
+        k.extend(std::iter::repeat(Key::CtrlLeft).take(9));
+        k.extend(std::iter::repeat(Key::CtrlRight).take(i));
+        k.extend([Key::Char('x'), Key::Enter]);
+        v.push(k);
+    }
+    for j in 0..=3usize {
+        let mut k = line.to_vec();
+        k.extend(std::iter::repeat(Key::Left).take(j));
+        k.extend([Key::Backspace, Key::Delete, Key::Char('x'), Key::Enter]);
+        v.push(k);
+    }
+    v.push(vec![Key::Char(c), Key::Enter, Key::Char('a'), Key::Enter]);
+    v.push(vec![Key::Char(c), Key::Char(c), Key::Enter, Key::Up, Key::Char('a'), Key::Enter]);
+    v.push(vec![Key::Char(c), Key::Char('a'), Key::Enter, Key::Up, Key::CtrlLeft, Key::Char('x'), Key::Enter]);
+    v.push(vec![Key::Char('a'), Key::Char(c), Key::Enter, Key::Up, Key::Up, Key::Down, Key::CtrlLeft, Key::CtrlRight, Key::Char('x'), Key::Enter]);
+    v
+}
+
 fn case_json(hist: usize, keys: &[Key]) -> Value {
+    if keys.iter().any(|k| !ALPHABET.contains(k)) {
+        return json!({
+            "initial_history": HISTORIES[hist],
+            "keys": keys.iter().map(|k| key_name(*k)).collect::<Vec<_>>(),
+            "key_codes": key_codes(keys),
+            "hist": hist,
+            "expected": format!("{:?}", reference(hist, keys)),
+            "observed": format!("{:?}", real(hist, keys)),
+        });
+    }
     json!({
         "initial_history": HISTORIES[hist],
         "keys": keys.iter().map(|k| key_name(*k)).collect::<Vec<_>>(),
@@ -221,7 +277,7 @@ fn case_json(hist: usize, keys: &[Key]) -> Value {
 }
 
 pub fn run(ctx: &Ctx) -> i32 {
-    let dedup_depth = ctx.tier.pick(7, 12);
+    let dedup_depth = ctx.tier.pick(7, 8);
     let raw_depth = ctx.tier.pick(4, 6);
 
     let step = |acc: &mut Acc, s: &St| -> Vec<St> {
@@ -268,7 +324,7 @@ pub fn run(ctx: &Ctx) -> i32 {
         .collect();
 
     // 1. deduplicated search (deep)
-    let cfg = bfs::Config { max_depth: dedup_depth, dedup: true, state_cap: 6_000_000, wall_cap_s: ctx.tier.pick(40, 900) };
+    let cfg = bfs::Config { max_depth: dedup_depth, dedup: true, state_cap: 40_000_000, wall_cap_s: ctx.tier.pick(40, 900) };
     let (mut acc, stats) = bfs::explore(roots.clone(), &cfg, None, step);
     // 2. raw enumeration without state merging (shallower): cross-checks that merging only merged
     //    states with equal futures -- every raw history is judged on its own.
@@ -276,15 +332,53 @@ pub fn run(ctx: &Ctx) -> i32 {
     let (acc_raw, stats_raw) = bfs::explore(roots, &cfg_raw, None, step);
     let raw_transitions = stats_raw.transitions;
     acc.merge(acc_raw);
+    // 3. character sweep: every character of the Basic Multilingual Plane (thorough: of planes
+    //    0-3 and 14) that is not a control character, in every template of `sweep_templates`
+    let top: u32 = ctx.tier.pick(0x1_0000, 0x4_0000);
+    let mut blocks: Vec<u32> = (0..top / 256).collect();
+    if top > 0x1_0000 {
+        blocks.extend(0xE_0000 / 256..0xE_1000 / 256);
+    } else {
+        // a few characters beyond the BMP in quick too: astral letters, digits, symbols
+        blocks.extend([0x1_D400 / 256, 0x1_D700 / 256, 0x1_F300 / 256, 0x2_0000 / 256]);
+    }
+    let parts = crate::isolate::pooled(None, blocks.len(), 4, Acc::new, |acc, bi| {
+        for cp in blocks[bi] * 256..blocks[bi] * 256 + 256 {
+            let Some(c) = char::from_u32(cp) else { continue };
+            if c.is_control() {
+                continue;
+            }
+            let class = if c.is_whitespace() { "space" } else if c.is_alphanumeric() { "word" } else { "other" };
+            for (ti, keys) in sweep_templates(c).iter().enumerate() {
+                acc.eval("sweep");
+                let (verdict, view) = judge(0, keys);
+                match verdict {
+                    Some((sig, what)) => {
+                        acc.outcome(format!("violation:{sig}"));
+                        acc.violation(format!("{sig}/sweep-{class}"), what, case_json(0, keys));
+                    }
+                    None => {
+                        acc.nontrivial();
+                        acc.gate("character-sweep");
+                        let view = view.unwrap();
+                        acc.outcome(format!("sweep/{class}/t{ti}/submitted={}", view.commands.len()));
+                    }
+                }
+            }
+        }
+    });
+    for p in parts {
+        acc.merge(p);
+    }
 
-    let rule = "BFS over key histories (15-key alphabet incl. 2-byte, 3-byte (the white-space character U+3000) and 4-byte characters, every editing key, Enter) from 3 initial histories (empty, two entries incl. multi-byte and ';', one with a blank entry as an externally written history file can contain); each transition replays the history on a fresh real Terminal through its read() and on the reference editor; distinct_nontrivial counts transitions whose real and reference views agreed (each is a distinct history)";
+    let rule = "BFS over key histories (15-key alphabet incl. 2-byte, 3-byte (the white-space character U+3000) and 4-byte characters, every editing key, Enter) from 3 initial histories (empty, two entries incl. multi-byte and ';', one with a blank entry as an externally written history file can contain); each transition replays the history on a fresh real Terminal through its read() and on the reference editor; distinct_nontrivial counts transitions whose real and reference views agreed (each is a distinct history). Plus a character sweep: every non-control character of the Basic Multilingual Plane and 4 blocks beyond it (thorough: planes 0-3 and the first 4096 of plane 14) in 24 key templates (the character next to a letter, punctuation, a space and itself; 0..7 word motions from either end then an insertion; Backspace/Delete around it; a line of it alone; recalled from history and edited)";
     finish(
         ctx,
         acc,
         Level { category: "model_checking", bfs: Some((stats.states, stats.transitions + raw_transitions, stats.transitions + raw_transitions, stats.max_depth)) },
         rule,
         !stats.capped && !stats_raw.capped,
-        &["multibyte-left-of-cursor", "line-submitted", "history-focused"],
+        &["multibyte-left-of-cursor", "line-submitted", "history-focused", "character-sweep"],
         &["fresh Terminal per history equals a fresh process (no TTY, no history file)", "reference editor semantics follow the doc comments of terminal.rs (history focus, Vim w/b word motions)"],
         json!({"measured_variant_w_stops_at_trailing_space": variant(), "measured_variant_blank_history_submits": variant_blank(), "dedup_depth": dedup_depth, "raw_depth": raw_depth, "dedup": {"states": stats.states, "transitions": stats.transitions, "per_level": stats.per_level, "capped": stats.capped}, "raw": {"transitions": raw_transitions, "per_level": stats_raw.per_level}}),
     )
@@ -292,6 +386,16 @@ pub fn run(ctx: &Ctx) -> i32 {
 
 pub fn replay(_ctx: &Ctx, case: &Value) -> Option<Option<String>> {
     let hist = case["hist"].as_u64()? as usize;
+    if let Some(codes) = case["key_codes"].as_array() {
+        let codes: Vec<u64> = codes.iter().filter_map(|v| v.as_u64()).collect();
+        let keys = keys_of_codes(&codes)?;
+        let (a, _) = judge(hist, &keys);
+        let (b, _) = judge(hist, &keys);
+        if a != b {
+            return Some(Some("NONDETERMINISTIC replay".into()));
+        }
+        return Some(a.map(|(sig, what)| format!("{sig}: {what}")));
+    }
     let ids: Vec<u8> = case["key_ids"].as_array()?.iter().map(|v| v.as_u64().unwrap() as u8).collect();
     let keys = keys_of(&ids);
     let (a, _) = judge(hist, &keys);
